@@ -73,6 +73,9 @@ pub const ROOT_FENS: &[(&str, &str)] = &[
     ("check", "4r1k1/8/8/4n3/8/8/8/r1B1K3 b - - 0 1"),
     ("check", "4q1k1/8/8/8/1b2R3/8/3n4/4K3 b - - 0 1"),
     ("check", "6k1/8/8/8/1b6/8/3NR3/4K2r w - - 0 1"),
+    // double check by TWO SLIDERS (one moves off the other's line and checks itself) while a third
+    // slider pins a defender; mirrors reverse the scan order
+    ("check", "4k1nQ/3R4/8/8/B7/8/8/4K3 w - - 0 1"),
     // two men pinned along different lines (same kind and different kinds)
     ("check", "4r1k1/8/8/8/8/8/4R3/r2RK3 w - - 0 1"),
     ("check", "4r1k1/8/8/8/1b6/8/3NR3/4K3 w - - 0 1"),
@@ -96,6 +99,20 @@ pub const ROOT_FENS: &[(&str, &str)] = &[
     ("mate", "8/8/8/8/8/6k1/8/r5NK w - - 0 1"),
     ("mate", "k7/P7/K7/8/8/8/8/8 b - - 0 1"),
     ("mate", "5k2/5P2/4K3/8/8/8/8/8 b - - 0 1"),
+    // --- text shape: the longest possible placement field (32 men, no two adjacent on a rank: 71 characters)
+    ("many", "r1b1k1n1/1n1q1b1r/1p1p1p1p/p1p1p1p1/1P1P1P1P/P1P1P1P1/1N1Q1B1R/R1B1K1N1 w Qq - 0 1"),
+    ("many", "1r1b1k1n/n1q1b1r1/p1p1p1p1/1p1p1p1p/P1P1P1P1/1P1P1P1P/N1Q1B1R1/1R1B1K1N b - - 0 1"),
+    ("many", "1r1b1k1n/n1q1b1r1/1p1p1p1p/p1p1p1p1/1P1P1P1P/P1P1P1P1/N1Q1B1R1/1R1B1K1N b - b3 0 1"),
+    // --- many men of one kind (promoted material): bit-iteration order, fixed-size buffers
+    ("many", "R6R/3Q4/1Q4Q1/4Q3/2Q4Q/Q4Q2/pp1Q4/kBNN1KB1 w - - 0 1"),
+    ("many", "7k/7p/Q1Q1Q3/6Q1/1Q6/3Q1Q2/Q1Q5/4K2R w K - 0 1"),
+    ("many", "3k4/8/8/8/8/N1N1N3/1N1N4/N1N1K3 w - - 0 1"),
+    ("many", "4k3/8/8/1R1R1R2/8/1R1R1R2/8/4K3 w - - 0 1"),
+    ("many", "7k/8/2B1B1B1/8/2B1B1B1/8/8/4K3 w - - 0 1"),
+    ("many", "K6k/8/7p/8/Q2n3Q/8/8/Q2Q2Q1 w - - 0 1"),
+    // all sixteen men can move and two pawns can capture en passant: 18 move-list entries (the maximum)
+    ("many", "rnbqkbnr/1pp1pppp/p7/2PpP3/P6P/1P1P1PP1/8/RNBQKBNR w KQkq d6 0 1"),
+    ("many", "rnbqkbnr/1pp2ppp/p7/2PpP3/P3p2P/1P1P1PP1/8/RNBQKBNR w KQkq d6 0 1"),
     // --- sparse endings
     ("sparse", "8/8/8/4k3/8/8/4P3/4K3 w - - 0 1"),
     ("sparse", "8/8/8/8/8/2k5/1r6/K7 w - - 0 1"),
@@ -334,6 +351,61 @@ impl EpFamily {
     /// the double pushes of a pre-push member that land beside an enemy pawn
     fn pushes(p: &RefPos) -> Vec<RMove> {
         p.legal_moves().into_iter().filter(|m| p.is_double_push(*m) && p.apply(*m).ep_adjacent()).collect()
+    }
+}
+
+/// En-passant family with TWO capturers: a pawn has just double-pushed between two enemy pawns
+/// (both may capture en passant; each may be pinned on its own file, rank or diagonal
+/// independently of the other); kings anywhere; one optional extra man.
+pub struct EpTwoFamily {
+    pub extra: Extra,
+    pub pre_push: bool,
+}
+impl Family for EpTwoFamily {
+    fn first_moves(&self, p: &RefPos) -> Option<Vec<RMove>> {
+        if self.pre_push {
+            Some(EpFamily::pushes(p))
+        } else {
+            None
+        }
+    }
+    fn name(&self) -> String {
+        format!("en-passant family with a capturer on both sides (extra man: {:?}{})", self.extra, if self.pre_push { "; positions before the double push, first action restricted to the push" } else { "" })
+    }
+    fn size(&self) -> u64 {
+        2 * 6 * 64 * 64 * self.extra.n()
+    }
+    fn get(&self, mut i: u64) -> Option<RefPos> {
+        let pusher = if take(&mut i, 2) == 0 { Col::W } else { Col::B };
+        let f = 1 + take(&mut i, 6) as i8;
+        let wk = take(&mut i, 64) as u8;
+        let bk = take(&mut i, 64) as u8;
+        let ex = take(&mut i, self.extra.n());
+        let mut p = RefPos::empty();
+        p.stm = pusher.flip();
+        let r = pusher.dp_rank();
+        p.put(sq(f, r), Kind::P, pusher);
+        p.put(sq(f - 1, r), Kind::P, pusher.flip());
+        p.put(sq(f + 1, r), Kind::P, pusher.flip());
+        if !place(&mut p, wk, Kind::K, Col::W) || !place(&mut p, bk, Kind::K, Col::B) {
+            return None;
+        }
+        if let Some((k, c, s)) = self.extra.get(ex, pusher) {
+            if !place(&mut p, s, k, c) {
+                return None;
+            }
+        }
+        p.dp = f;
+        let p = valid(p)?;
+        if self.pre_push {
+            let mut q = p;
+            q.dp = -1;
+            q.stm = pusher;
+            q.clear(sq(f, r));
+            q.put(sq(f, r - 2 * pusher.dir()), Kind::P, pusher);
+            return valid(q);
+        }
+        Some(p)
     }
 }
 
@@ -763,6 +835,176 @@ fn apply_pin(p: &mut RefPos, ksq: Sq, me: Col, s: &PinSpec) -> bool {
     place(p, sq(a.0, a.1), s.kind, me) && place(p, sq(b.0, b.1), s.pinner, me.flip())
 }
 
+/// A family given by an explicit list.
+pub struct ListFamily {
+    pub label: String,
+    pub items: Vec<RefPos>,
+}
+impl Family for ListFamily {
+    fn name(&self) -> String {
+        self.label.clone()
+    }
+    fn size(&self) -> u64 {
+        self.items.len() as u64
+    }
+    fn get(&self, i: u64) -> Option<RefPos> {
+        self.items.get(i as usize).copied()
+    }
+}
+
+/// Rank patterns: for every rank and every one of its 256 occupancy patterns, knights (all white, all
+/// black, alternating) on the occupied squares, the kings four ranks away in the corners of their
+/// rank; both sides to move.  Every run-length shape a FEN rank can have, on every rank.
+pub fn rank_pattern_family() -> ListFamily {
+    let mut items = vec![];
+    for r in 0..8i8 {
+        let kr = (r + 4) % 8;
+        for mask in 0..256u32 {
+            for colouring in 0..3 {
+                let mut p = RefPos::empty();
+                let mut n = 0;
+                for f in 0..8i8 {
+                    if mask & (1 << f) != 0 {
+                        let c = match colouring {
+                            0 => Col::W,
+                            1 => Col::B,
+                            _ => {
+                                if n % 2 == 0 {
+                                    Col::W
+                                } else {
+                                    Col::B
+                                }
+                            }
+                        };
+                        p.put(sq(f, r), Kind::N, c);
+                        n += 1;
+                    }
+                }
+                p.put(sq(0, kr), Kind::K, Col::W);
+                p.put(sq(7, kr), Kind::K, Col::B);
+                for stm in [Col::W, Col::B] {
+                    let mut q = p;
+                    q.stm = stm;
+                    if q.is_valid() {
+                        items.push(q);
+                    }
+                }
+            }
+        }
+    }
+    items.sort();
+    items.dedup();
+    ListFamily { label: "rank patterns: every rank x all 256 occupancy patterns (knights of one or alternating colours), kings four ranks away, both sides to move".into(), items }
+}
+
+/// Line geometry around a king: the king of one side on every square; on one ray (or on every
+/// unordered pair of rays) a man of its own at distance i, an enemy slider at distance j > i and
+/// optionally further enemy sliders behind it (a battery) at l > j (and m > l on single rays);
+/// sliders of every kind (a rook on a diagonal pins nothing); squares in between empty.  The other
+/// king goes to the first square of a fixed list that gives a valid position; both sides to move.
+/// `rich`: own man in {N, P, Q} (else N), pinner in {R, B, Q} (else the fitting kind and Q).
+pub fn line_family(two_rays: bool, rich: bool) -> ListFamily {
+    use rayon::prelude::*;
+    #[derive(Clone)]
+    struct RayFill(Vec<(Sq, Kind, bool)>); // (square, kind, own?)
+    let own_kinds: &[Kind] = if rich { &[Kind::N, Kind::P, Kind::Q] } else { &[Kind::N] };
+    let fills = |k: Sq, dir: usize, triple: bool| -> Vec<RayFill> {
+        let (df, dr) = DIRS8[dir];
+        let mut ray = vec![];
+        let (mut f, mut r) = (file_of(k) + df, rank_of(k) + dr);
+        while on_board(f, r) {
+            ray.push(sq(f, r));
+            f += df;
+            r += dr;
+        }
+        let fit = if dir % 2 == 0 { Kind::R } else { Kind::B };
+        let sl: Vec<Kind> = if rich { vec![Kind::R, Kind::B, Kind::Q] } else { vec![fit, Kind::Q] };
+        let mut out = vec![];
+        for i in 0..ray.len() {
+            for ok in own_kinds {
+                if *ok == Kind::P && (rank_of(ray[i]) == 0 || rank_of(ray[i]) == 7) {
+                    continue;
+                }
+                for j in (i + 1)..ray.len() {
+                    for k1 in sl.iter() {
+                        out.push(RayFill(vec![(ray[i], *ok, true), (ray[j], *k1, false)]));
+                        for l in (j + 1)..ray.len() {
+                            for k2 in sl.iter() {
+                                out.push(RayFill(vec![(ray[i], *ok, true), (ray[j], *k1, false), (ray[l], *k2, false)]));
+                                if triple {
+                                    for m in (l + 1)..ray.len() {
+                                        out.push(RayFill(vec![(ray[i], *ok, true), (ray[j], *k1, false), (ray[l], *k2, false), (ray[m], *k2, false)]));
+                                    }
+                                }
+                            }
+                        }
+                    }
+                }
+            }
+        }
+        out
+    };
+    let finish = |k: Sq, me: Col, men: &[&RayFill]| -> Vec<RefPos> {
+        let mut p = RefPos::empty();
+        p.put(k, Kind::K, me);
+        for rf in men {
+            for (s, kind, own) in rf.0.iter() {
+                if !place(&mut p, *s, *kind, if *own { me } else { me.flip() }) {
+                    return vec![];
+                }
+            }
+        }
+        let mut out = vec![];
+        for stm in [me, me.flip()] {
+            for ok in [63u8, 56, 7, 0, 60, 4, 31, 24, 36, 27] {
+                let mut q = p;
+                q.stm = stm;
+                if place(&mut q, ok, Kind::K, me.flip()) && q.is_valid() {
+                    out.push(q);
+                    break;
+                }
+            }
+        }
+        out
+    };
+    let jobs: Vec<(Sq, Col)> = (0..64u8).flat_map(|k| [(k, Col::W), (k, Col::B)]).collect();
+    let items: Vec<RefPos> = jobs
+        .par_iter()
+        .flat_map_iter(|(k, me)| {
+            let per_dir: Vec<Vec<RayFill>> = (0..8).map(|d| fills(*k, d, !two_rays)).collect();
+            let mut out = vec![];
+            if two_rays {
+                for d1 in 0..8 {
+                    for d2 in (d1 + 1)..8 {
+                        for a in per_dir[d1].iter() {
+                            for b in per_dir[d2].iter() {
+                                out.extend(finish(*k, *me, &[a, b]));
+                            }
+                        }
+                    }
+                }
+            } else {
+                for d in 0..8 {
+                    for a in per_dir[d].iter() {
+                        out.extend(finish(*k, *me, &[a]));
+                    }
+                }
+            }
+            out
+        })
+        .collect();
+    ListFamily {
+        label: format!(
+            "line geometry around a king: every king square x {} x (own man{}, enemy slider{}, optional battery behind it{}), both sides to move",
+            if two_rays { "every pair of rays" } else { "every ray" },
+            if rich { " N/P/Q" } else { " N" },
+            if rich { " R/B/Q" } else { " of the fitting kind or Q" },
+            if two_rays { "" } else { " up to three deep" }
+        ),
+        items,
+    }
+}
+
 /// Terminal base + one or two pinned men (with their pinners) of the boxed side.
 pub struct PinnedTerminalFamily {
     pub bases: Vec<RefPos>,
@@ -798,6 +1040,46 @@ impl Family for PinnedTerminalFamily {
                 return None;
             }
         }
+        valid(p)
+    }
+}
+
+/// Terminal base + an en-passant pattern with a capturer on BOTH sides of the pushed pawn: each
+/// capturer's own push square empty or blocked (enemy pawn / knight), and one enemy slider
+/// anywhere (it may pin either capturer on a file, rank or diagonal, or neither).
+pub struct EpTerminalTwoFamily {
+    pub bases: Vec<RefPos>,
+}
+impl Family for EpTerminalTwoFamily {
+    fn name(&self) -> String {
+        format!("bare-king mates and stalemates ({} bases) with a two-capturer en-passant pattern of the boxed side added (two pawns, double-pushed enemy pawn between them, optional blockers of the push squares, optional enemy slider anywhere)", self.bases.len())
+    }
+    fn size(&self) -> u64 {
+        self.bases.len() as u64 * 6 * 3 * 3 * Extra::EnemySlider.n()
+    }
+    fn get(&self, mut i: u64) -> Option<RefPos> {
+        let f = 1 + take(&mut i, 6) as i8;
+        let b1 = take(&mut i, 3);
+        let b2 = take(&mut i, 3);
+        let ex = take(&mut i, Extra::EnemySlider.n());
+        let mut p = self.bases[i as usize];
+        let me = p.stm;
+        let pusher = me.flip();
+        let r = pusher.dp_rank();
+        if !place(&mut p, sq(f, r), Kind::P, pusher) || !place(&mut p, sq(f - 1, r), Kind::P, me) || !place(&mut p, sq(f + 1, r), Kind::P, me) {
+            return None;
+        }
+        for (b, df) in [(b1, -1i8), (b2, 1i8)] {
+            if b > 0 && !place(&mut p, sq(f + df, r + me.dir()), if b == 1 { Kind::P } else { Kind::N }, pusher) {
+                return None;
+            }
+        }
+        if let Some((k, c, s)) = Extra::EnemySlider.get(ex, pusher) {
+            if !place(&mut p, s, k, c) {
+                return None;
+            }
+        }
+        p.dp = f;
         valid(p)
     }
 }
